@@ -135,6 +135,10 @@ type UFDef struct {
 	Lemma func(arg uint64) (lo, hi uint64, par int, base uint64, mulx uint64)
 	// Eager, if set, is a complete SMT-LIB definition body over variable "x".
 	Eager string
+	// EagerLo, if set, defines the function for arguments <= 0xFF; above that it stays uninterpreted.
+	EagerLo string
+	// Coarse, if set, returns a globally valid axiom about one application (argument text, application text).
+	Coarse func(an, fn string) string
 }
 
 type Term struct {
